@@ -571,6 +571,20 @@ fn configuration(e: &E) -> String {
 // ------------------------------------------------------------------------------------------------------------
 // the property oracle on the implementation
 
+/// the words on broken lines: every gap is one of blank, line break (the next word then starts in column 0), line break
+/// plus indentation, tab, a comment up to the line end, CR LF — chosen by a hash of the position
+pub fn layout_broken(ws: &[String], seed: u64) -> String {
+    let mut s = String::new();
+    for (i, w) in ws.iter().enumerate() {
+        if i > 0 {
+            let h = (seed ^ (i as u64).wrapping_mul(0x9e3779b97f4a7c15)).wrapping_mul(0xbf58476d1ce4e5b9) >> 33;
+            s.push_str(match h % 7 { 0 | 1 => "\n", 2 => " ", 3 => "\n  ", 4 => "\t", 5 => " -- c\n", _ => "\r\n" });
+        }
+        s.push_str(w);
+    }
+    s
+}
+
 fn parse_text_tree(text: &str) -> Result<String, String> {
     let tokens = tokenize(text).map_err(|e| format!("tokenize: {:?}", e.error))?;
     match parse_tokens(tokens) {
@@ -600,7 +614,10 @@ fn oracle(run: &mut Run, e: &E, through_select: bool) {
     let min_text = layout(&words(e, Style::Minimal), false);
     let full_text = layout(&words(e, Style::Full), false);
     run.oracle_checks += 1;
-    for (which, text) in [("minimal", &min_text), ("full", &full_text)].iter() {
+    // a third spelling: the minimal form on broken lines (operators at line ends, operands and signs in column 0)
+    let seed = min_text.bytes().fold(0xcbf29ce484222325u64, |h, b| (h ^ b as u64).wrapping_mul(0x100000001b3));
+    let broken_text = layout_broken(&words(e, Style::Minimal), seed);
+    for (which, text) in [("minimal", &min_text), ("full", &full_text), ("minimal, on broken lines,", &broken_text)].iter() {
         match parse_text_tree(text) {
             Ok(got) => {
                 if got != want {
